@@ -215,7 +215,7 @@ func (x *exec) monitorSpecial(st *pstate, key string, callee *ssa.Function, cc *
 	m := x.monitor
 	if key == "sync.(*Mutex).Lock" {
 		if st.held["mu"] {
-			x.emit(st, "lock."+x.ord[in], "monitor", smt.False, in.Pos(), "Lock while already holding the lock")
+			x.emit(st, x.ord[in]+".notheld", "monitor", smt.False, in.Pos(), "Lock while already holding the lock")
 		}
 		// other goroutines may have changed everything that is shared
 		cur := x.env.Next(st.heap)
@@ -240,12 +240,12 @@ func (x *exec) monitorSpecial(st *pstate, key string, callee *ssa.Function, cc *
 		return nil, true, false
 	}
 	if !st.held["mu"] {
-		x.emit(st, "unlock."+x.ord[in], "monitor", smt.False, in.Pos(), "Unlock without holding the lock")
+		x.emit(st, x.ord[in]+".held", "monitor", smt.False, in.Pos(), "Unlock without holding the lock")
 	}
 	sc := x.monitorScope(st)
 	for _, inv := range m.invs {
 		ev := x.evalAt(st, sc)
-		x.emit(st, "unlock."+x.ord[in]+"."+inv.label, "monitor", inv.eval(ev), in.Pos(), "monitor invariant holds at Unlock: "+inv.text)
+		x.emit(st, x.ord[in]+"."+inv.label, "monitor", inv.eval(ev), in.Pos(), "monitor invariant holds at Unlock: "+inv.text)
 	}
 	st.held["mu"] = false
 	return nil, true, false
